@@ -254,8 +254,15 @@ def strat_sd(tier):
     st.tuples(st.just("del"), name),
     st.tuples(st.just("delattr"), name),
     st.tuples(st.just("call"), st.integers(0, 5)),
+    # the attribute of a name replaced by hand with something that is no strategy (sd.p = 14): the library
+    # keeps such an attribute when the item goes, and puts the item back in its place on delattr
+    st.tuples(st.just("hand"), name, st.integers(0, 2)),
+    # ... directly followed by the loss of that name's item (deleted, or assigned another strategy)
+    st.tuples(st.just("hand then lose"), name, st.integers(0, 2), st.one_of(st.none(), f)),
   )
+  # pool: how many of the names the history uses (a small pool makes histories revisit the same name)
   return st.fixed_dictionaries(dict(named=st.booleans(), ops=st.lists(op, max_size=maxlen),
+                                    pool=st.sampled_from([2, 3, 7, 7]),
                                     values=st.sampled_from(["functions", "functions", "bound methods", "falsy callables"])))
 
 
@@ -314,6 +321,7 @@ def run_sd(case):
   sd = StrategyDict("sd_under_test") if case["named"] else StrategyDict()
   m = Model()
   default = [None]      # index of the expected default
+  hand = {}             # name -> attribute value assigned by hand over (or without) the strategy
   facts = set(["values:" + case.get("values", "functions")])
 
   def mdelete(k):
@@ -332,6 +340,8 @@ def run_sd(case):
 
   def mset(names, i):
     for k in names:
+      if hand.pop(k, None) is not None and m.find(k) is not None:   # assigning the item sets the attribute again
+        facts.add("item deleted under a hand-made attribute")
       if m.find(k) is not None:
         facts.add("overwrite")
         mdelete(k)
@@ -343,8 +353,21 @@ def run_sd(case):
       if "default lost its names" in facts:
         facts.add("default re-chosen")
 
-  for n, op in enumerate(case["ops"]):
-    ctx = "at step %d of %r (%s)" % (n, case["ops"], case.get("values"))
+  pool = case.get("pool", len(NAMES))
+  nm = lambda x: NAMES[NAMES.index(x) % pool]
+  ops = []
+  for o in case["ops"]:
+    if o[0] == "hand then lose":
+      ops.append(("hand", nm(o[1]), o[2]))
+      ops.append(("del", nm(o[1])) if o[3] is None else ("set1", nm(o[1]), o[3]))
+    elif o[0] in ("set", "deco"):
+      ops.append((o[0], tuple(nm(x) for x in o[1])) + tuple(o[2:]))
+    elif o[0] == "call":
+      ops.append(tuple(o))
+    else:
+      ops.append((o[0], nm(o[1])) + tuple(o[2:]))
+  for n, op in enumerate(ops):
+    ctx = "at step %d of %r (%s)" % (n, ops, case.get("values"))
     if op[0] == "set":
       sd[op[1]] = val(op[2])
       mset(op[1], op[2])
@@ -360,6 +383,16 @@ def run_sd(case):
       if not keep and f.__name__ != op[1][0]:
         raise Violation("decorated function is named %r, expected %r %s" % (f.__name__, op[1][0], ctx))
       mset(op[1], op[2])
+    elif op[0] == "hand":
+      setattr(sd, op[1], ("by hand", op[2]))
+      hand[op[1]] = ("by hand", op[2])
+      facts.add("attribute replaced by hand")
+    elif op[0] == "delattr" and op[1] in hand:
+      # both an item and a different attribute: the attribute is put back (the item stays);
+      # only the hand-made attribute: it is an ordinary attribute and goes
+      delattr(sd, op[1])
+      del hand[op[1]]
+      facts.add("delattr on a hand-made attribute")
     elif op[0] in ("del", "delattr"):
       e1 = e2 = None
       try:
@@ -372,7 +405,10 @@ def run_sd(case):
       except AttributeError:
         e1 = "AttributeError"
       try:
+        had_hand = op[1] in hand and m.find(op[1]) is not None
         mdelete(op[1])
+        if had_hand:
+          facts.add("item deleted under a hand-made attribute")
       except KeyError:
         e2 = "KeyError" if op[0] == "del" else "AttributeError"
         facts.add("delete-missing")
@@ -387,7 +423,15 @@ def run_sd(case):
     compare(sd, m, NAMES, [val(i) for i in range(NF)], ctx)
     for name in NAMES:
       g = m.find(name)
-      if g is not None:
+      if name in hand:
+        # replaced by hand: the attribute is what the user put there, the item (if any) is the strategy
+        if vars(sd).get(name, "<no instance attribute>") != hand[name]:
+          raise Violation("name %r: the attribute set by hand (%r) reads %r %s"
+                          % (name, hand[name], vars(sd).get(name, "<no instance attribute>"), ctx))
+        if g is not None and not (sd[name] == g[0]):
+          raise Violation("name %r (attribute replaced by hand): item %r, model strategy %d %s"
+                          % (name, sd[name], idx(g[0]), ctx))
+      elif g is not None:
         # "every name is an attribute equal to the item"
         if name not in vars(sd) or not (getattr(sd, name) == sd[name]) or not (sd[name] == g[0]):
           raise Violation("live name %r: attribute %r, item %r, model strategy %d %s"
@@ -417,6 +461,7 @@ CLAUSES = [
          floors={"shared": .2, "merge-by-equal-value": .2, "overwrite": .2, "delete-last-key": .03},
          doc="random histories over hash-equal key/value spellings, tuple keys with duplicates, construction from a dict"),
   Clause("strategydict", strat_sd, run_sd, quick=3000, thorough=40000, fuzz={"thorough": 80000},
-         floors={"shared": .15, "default re-chosen": .03, "merge-by-equal-value": .15},
+         floors={"shared": .15, "default re-chosen": .03, "merge-by-equal-value": .15,
+                 "attribute replaced by hand": .2, "item deleted under a hand-made attribute": .03},
          doc="StrategyDict: items == attributes, default selection and re-selection, call dispatch"),
 ]
